@@ -28,9 +28,9 @@ theorem all_runs (D : Dev σ ε) (strict : Bool) (p : Prog σ ε) (dev : σ) (P 
   List.all_eq_true.mp h _ (run_mem_runs D strict p dev script)
 
 /-- The same for the two transitioners in the setting of the property. -/
-theorem all_runsFMQ (fixed strict : Bool) (evt : O2Event) (src : O2State) (P : Run FState FEvent → Bool)
-    (h : (runsFMQ fixed strict evt src).all P = true) (script : List Outcome) :
-    P (runFMQ fixed strict evt src script) = true :=
+theorem all_runsFMQ (cfg : Cfg) (strict : Bool) (evt : O2Event) (src : O2State) (P : Run FState FEvent → Bool)
+    (h : (runsFMQ cfg strict evt src).all P = true) (script : List Outcome) :
+    P (runFMQ cfg strict evt src script) = true :=
   all_runs fmqDev strict _ _ P h script
 
 theorem all_runsDirect (strict : Bool) (evt : O2Event) (src : O2State) (P : Run O2State O2Event → Bool)
